@@ -245,7 +245,7 @@ def g_churn(rng, i, **kw):
     kind = rng.choice(["plain", "plain", "fut"])
     wk, sf, sy = ("busy", 0, 0) if kind == "plain" else ("fut", 0, 0)
     cap = rng.choice([1, 2, 4])
-    cycles = kw.get("cycles") or rng.choice([6, 10, 14, 18])
+    cycles = kw.get("cycles") or rng.choice([6, 12, 20, 30])
     scripts = {0: [], 1: []}
     nxt = 2
     late = None
@@ -273,6 +273,56 @@ def g_churn(rng, i, **kw):
         # the late handle acknowledges only after a lot of churn
         sched = sched + [str(late)] * 30 + scen.sched_rand(rng, scripts, 200)
     return scen.Scn("churn%d" % i, fl, kind, cap, wk, sf, sy, scripts, sched, limit=6000, tags=("churn",))
+
+def g_reclaim(rng, i, **kw):
+    """reclamation cycles turning while a writer is frozen in the middle of scanning the stream list and an idle
+    handle acknowledges late: pre-churn (first cycle starts), writer frozen mid-send, >= 21 more retirements,
+    the idle handle operates, one more retirement, the writer resumes"""
+    kind = "plain"
+    cap = rng.choice([1, 1, 2])
+    scripts = {0: [], 1: [], 2: []}
+    sched = []
+    nxt = 3
+    scripts[1].append("clone:2"); sched.append("1*")
+    writers = [0]
+    if rng.random() < 0.5:
+        scripts[0].append("clone:%d" % nxt); scripts[nxt] = []; writers.append(nxt); sched.append("0*"); nxt += 1
+    def cycle():
+        nonlocal nxt
+        a = nxt; nxt += 1
+        if rng.random() < 0.8:
+            scripts[1].append("addstream:%d" % a)
+        else:
+            scripts[1].append("clone:%d" % a)
+        scripts[a] = [rng.choice(["drop", "unsub"])]
+        sched.extend(["1*", "%d*" % a])
+    for _ in range(rng.choice([6, 7, 8, 9])):
+        cycle()
+    # fill the ring so that the next send has to scan the stream list, then freeze writers inside a send
+    val = 1
+    n = cap_n(cap)
+    for _ in range(n):
+        scripts[0].append("send:%d" % val); val += 1; sched.append("0*")
+    # a stream that is registered while the writers take their snapshot of the stream list and leaves afterwards
+    hold = nxt; nxt += 1
+    scripts[1].append("addstream:%d" % hold); scripts[hold] = [rng.choice(["drop", "unsub"])]; sched.append("1*")
+    for w in writers:
+        scripts[w].append("send:%d" % val); val += 1
+        sched.extend([str(w)] * rng.choice([5, 7, 8, 8, 9, 9, 10]))
+    sched.append("%d*" % hold)
+    for _ in range(rng.choice([7, 8, 9, 10])):
+        cycle()
+    scripts[2].append("recv"); sched.append("2*")
+    scripts[1].append("recv"); sched.append("1*")
+    for _ in range(rng.choice([1, 2, 7])):
+        cycle()
+    for w in writers:
+        sched.append("%d*" % w)
+    scripts[2].append("drop")
+    scripts[1] += ["recv", "drop"]
+    for w in writers:
+        scripts[w].append("drop")
+    return scen.Scn("reclaim%d" % i, "B", kind, cap, "busy", 0, 0, scripts, sched, limit=9000, tags=("reclaim",))
 
 def g_quiesce(rng, i, **kw):
     """a concurrent phase, all threads joined (sync), then a sequential drain / refill probe"""
@@ -433,7 +483,7 @@ def g_solo(rng, i, **kw):
 
 GENS = {"seq": g_seq, "rand": g_rand, "pc": g_pc, "view": g_view, "teardown": g_teardown, "disc": g_disc,
         "norecv": g_norecv, "block": g_block, "fut": g_fut, "churn": g_churn, "quiesce": g_quiesce,
-        "addstream": g_addstream, "unsub": g_unsub, "handles": g_handles, "futseq": g_futseq, "solo": g_solo}
+        "addstream": g_addstream, "unsub": g_unsub, "handles": g_handles, "futseq": g_futseq, "solo": g_solo, "reclaim": g_reclaim}
 
 # ---------------------------------------------------------------- small scenarios for exhaustive schedules
 def smalls_ring():
@@ -462,8 +512,8 @@ PROPS = {
     "C12": {"gens": [("handles", 150, {})], "small": smalls_ring()[:1], "oracles": ["C01", "C02", "C03"]},
     "C14": {"gens": [("fut", 170, {})], "small": [], "oracles": ["C14"]},
     "C15": {"gens": [("futseq", 90, {}), ("fut", 60, {})], "small": [], "oracles": ["C15", "C09", "C01"]},
-    "C16": {"gens": [("churn", 60, {}), ("rand", 40, {})], "small": [], "oracles": ["C16"]},
-    "C17": {"gens": [("churn", 60, {}), ("teardown", 60, {})], "small": [], "oracles": ["C17"]},
+    "C16": {"gens": [("reclaim", 40, {}), ("churn", 50, {}), ("rand", 30, {})], "small": [], "oracles": ["C16"]},
+    "C17": {"gens": [("reclaim", 20, {}), ("churn", 50, {}), ("teardown", 60, {})], "small": [], "oracles": ["C17"]},
     "C18": {"gens": [("solo", 150, {})], "small": [], "oracles": ["C18"]},
 }
 
